@@ -750,6 +750,7 @@ func (lb *LoadBalancer) proxyRequest(backend *Backend, w http.ResponseWriter, r 
 	rw := &responseWriter{
 		ResponseWriter: w,
 		statusCode:     http.StatusOK, // Default status code
+		req:            r,
 	}
 
 	// ReverseProxy aborts a broken exchange with panic(http.ErrAbortHandler): the connection
@@ -759,7 +760,13 @@ func (lb *LoadBalancer) proxyRequest(backend *Backend, w http.ResponseWriter, r 
 		backend.DecrementConnections()
 		lb.metricsCollector.UpdateBackendConnections(backend.Name, backend.GetActiveConnections)
 		if !completed {
-			lb.recordRequestMetrics(backend, http.StatusBadGateway, startTime, r)
+			// A relayed 5xx stands for itself; an exchange aborted after a good status failed either
+			// because the client went away (no observation) or because the backend broke off
+			if rw.statusCode >= http.StatusInternalServerError {
+				lb.recordRequestMetrics(backend, rw.statusCode, startTime, r, rw.clientFault)
+			} else {
+				lb.recordRequestMetrics(backend, http.StatusBadGateway, startTime, r, abandonedByClient(r))
+			}
 		}
 	}()
 
@@ -773,7 +780,7 @@ func (lb *LoadBalancer) proxyRequest(backend *Backend, w http.ResponseWriter, r 
 	completed = true
 
 	// Record metrics and handle passive health checks
-	lb.recordRequestMetrics(backend, rw.statusCode, startTime, r)
+	lb.recordRequestMetrics(backend, rw.statusCode, startTime, r, rw.clientFault)
 
 	if rw.statusCode >= http.StatusInternalServerError {
 		return errBackendFailure
@@ -782,16 +789,16 @@ func (lb *LoadBalancer) proxyRequest(backend *Backend, w http.ResponseWriter, r 
 }
 
 // recordRequestMetrics records metrics and performs passive health checks
-func (lb *LoadBalancer) recordRequestMetrics(backend *Backend, statusCode int, startTime time.Time, r *http.Request) {
+func (lb *LoadBalancer) recordRequestMetrics(backend *Backend, statusCode int, startTime time.Time, r *http.Request, clientFault bool) {
 	responseTime := time.Since(startTime)
 	success := statusCode < 500
 	lb.metricsCollector.RecordResponse(success, responseTime)
 	lb.metricsCollector.RecordBackendRequest(backend.Name, success, responseTime)
 
 	// Check if the backend returned an error status code (5xx) and passive health checks are enabled.
-	// An exchange that failed on the client's side is answered 502 by the reverse proxy without the
-	// backend having failed: it is not a health observation.
-	if statusCode >= 500 && lb.healthChecks.passiveEnabled && !abandonedByClient(r) {
+	// An exchange that had failed on the client's side when its status was decided is answered 502 by
+	// the reverse proxy without the backend having failed: it is not a health observation.
+	if statusCode >= 500 && lb.healthChecks.passiveEnabled && !clientFault {
 		lb.handlePassiveHealthCheck(backend, statusCode, r)
 		return
 	}
@@ -863,11 +870,20 @@ func abandonedByClient(r *http.Request) bool {
 type responseWriter struct {
 	http.ResponseWriter
 	statusCode int
+	req        *http.Request
+	// clientFault: when the status was written the exchange had already failed on the client's side
+	// (see abandonedByClient). Judged at that moment and not afterwards: the server cancels the
+	// request's context as soon as the client's connection closes, also when a client that has
+	// received the backend's complete answer simply hangs up.
+	clientFault bool
 }
 
 // WriteHeader captures the status code
 func (rw *responseWriter) WriteHeader(statusCode int) {
 	rw.statusCode = statusCode
+	if rw.req != nil {
+		rw.clientFault = abandonedByClient(rw.req)
+	}
 	rw.ResponseWriter.WriteHeader(statusCode)
 }
 
